@@ -223,8 +223,10 @@ pub fn execute_sequences(scratch: &mut DecoderScratch) -> (r: Result<(), Execute
         final(scratch).buffer.inv(),
         final(scratch).sequences == old(scratch).sequences, final(scratch).literals_buffer == old(scratch).literals_buffer,
         final(scratch).buffer.dict() == old(scratch).buffer.dict(),
-        // C05: a block regenerates at most 128 KiB
-        r is Ok ==> final(scratch).buffer.view().len() - old(scratch).buffer.view().len() <= MAX_BLOCK_SIZE,
+        // C05: a block regenerates at most 128 KiB - on EVERY path: an over-long block is rejected before it is expanded, so
+        // even a failing call never leaves more than one block's worth of extra data in the window
+        final(scratch).buffer.view().len() - old(scratch).buffer.view().len() <= MAX_BLOCK_SIZE,
+        final(scratch).buffer.view().len() >= old(scratch).buffer.view().len(),
         // C01: the output is the interleaving of literal runs and matches, then the remaining literals
         r is Ok ==> ({
             let n = old(scratch).sequences@.len() as int;
@@ -258,13 +260,6 @@ pub fn execute_sequences(scratch: &mut DecoderScratch) -> (r: Result<(), Execute
             }),
 {
         let seq = scratch.sequences[idx];
-
-        // A block must not regenerate more than MAX_BLOCK_SIZE bytes. Check before copying anything
-        // so corrupted data can not make the buffer grow without bounds (and seq_sum can not overflow).
-        let block_size = u64::from(seq_sum) + u64::from(seq.ll) + u64::from(seq.ml);
-        if block_size > u64::from(MAX_BLOCK_SIZE) {
-            return Err(ExecuteSequencesError::BlockSizeTooLarge { size: block_size });
-        }
 
         if seq.ll > 0 {
             let high = literals_copy_counter + seq.ll as usize;
@@ -309,12 +304,16 @@ pub fn execute_sequences(scratch: &mut DecoderScratch) -> (r: Result<(), Execute
         seq_sum += seq.ml;
         seq_sum += seq.ll;
     }
-    if literals_copy_counter < scratch.literals_buffer.len() {
-        let rest_literals = &scratch.literals_buffer[literals_copy_counter..];
-        let block_size = u64::from(seq_sum) + rest_literals.len() as u64;
-        if block_size > u64::from(MAX_BLOCK_SIZE) {
-            return Err(ExecuteSequencesError::BlockSizeTooLarge { size: block_size });
-        }
+
+    // A block must not regenerate more than MAX_BLOCK_SIZE bytes. The regenerated size is the sum over
+    // all sequences plus the literals left over after the last one, so validate it once here instead
+    // of paying for the comparison on every iteration of the hot loop above.
+    let rest_literals = &scratch.literals_buffer[literals_copy_counter..];
+    let block_size = u64::from(seq_sum) + rest_literals.len() as u64;
+    if block_size > u64::from(MAX_BLOCK_SIZE) {
+        return Err(ExecuteSequencesError::BlockSizeTooLarge { size: block_size });
+    }
+    if !rest_literals.is_empty() {
         scratch.buffer.push(rest_literals);
         seq_sum += rest_literals.len() as u32;
     }
